@@ -27,11 +27,13 @@ def check(prop, tier, seed, replay=None):
     else:
         for i in G.instances():
             kind, t, u, r = i; H = min(C.hi(t), C.hi(u))
-            for _ in range(6 if not thorough else 40):
+            for rep_ in range(6 if not thorough else 40):
                 ext = []
                 budget = H
                 for k in range(r):
                     e = rnd.choice([0, 1, 2, 3, rnd.randint(1, max(1, int(budget ** (1.0 / max(1, r - k)))))]); ext.append(e); budget = max(1, budget // max(e, 1))
+                if rep_ == 0 and r >= 1:      # an extent exactly at the top of the narrower index type (the index space is still representable)
+                    ext = [1] * r; ext[rnd.randrange(r)] = rnd.choice([H, H, H - 1])
                 can = canonical(kind, ext)
                 variants = [('canonical', can)]
                 if r >= 1:
